@@ -256,6 +256,47 @@ Section SeqProofs.
   Qed.
 End SeqProofs.
 
+(* ====================================================================== subsequences *)
+Section Subseq.
+  Context {X : Type}.
+  Implicit Types l : list X.
+
+  Lemma subseq_refl l : subseq l l.
+  Proof. induction l; [apply subseq_nil|apply subseq_take; assumption]. Qed.
+
+  Lemma subseq_nil_l l : subseq [] l.
+  Proof. induction l; [apply subseq_nil|apply subseq_skip; assumption]. Qed.
+
+  Lemma subseq_app l1 l1' l2 l2' : subseq l1 l1' -> subseq l2 l2' -> subseq (l1 ++ l2) (l1' ++ l2').
+  Proof.
+    induction 1 as [|x l1 l1' H IH|x l1 l1' H IH]; intros H2; cbn [app];
+      [exact H2|apply subseq_skip; auto|apply subseq_take; auto].
+  Qed.
+
+  Lemma subseq_app_l l1 l2 : subseq l1 (l1 ++ l2).
+  Proof. rewrite <- (app_nil_r l1) at 1. apply subseq_app; [apply subseq_refl|apply subseq_nil_l]. Qed.
+
+  Lemma subseq_trans l1 l2 l3 : subseq l1 l2 -> subseq l2 l3 -> subseq l1 l3.
+  Proof.
+    intros H12 H23. revert l1 H12. induction H23 as [|x l2 l3 H IH|x l2 l3 H IH]; intros l1 H12.
+    - exact H12.
+    - apply subseq_skip. apply IH. exact H12.
+    - inversion H12; subst; [apply subseq_skip|apply subseq_take]; apply IH; assumption.
+  Qed.
+
+  Lemma subseq_In l1 l2 x : subseq l1 l2 -> In x l1 -> In x l2.
+  Proof. induction 1; cbn [In]; intros Hi; auto. destruct Hi; auto. Qed.
+
+  Lemma subseq_NoDup l1 l2 : subseq l1 l2 -> NoDup l2 -> NoDup l1.
+  Proof.
+    induction 1 as [|x l1 l2 H IH|x l1 l2 H IH]; intros Hn; auto; inversion Hn; subst; auto.
+    constructor; auto. intros Hi. eapply subseq_In in Hi; eauto.
+  Qed.
+
+  Lemma subseq_length l1 l2 : subseq l1 l2 -> (length l1 <= length l2)%nat.
+  Proof. induction 1; cbn [length]; lia. Qed.
+End Subseq.
+
 (* ====================================================================== AsyncLogging *)
 Section AsyncProofs.
   Variable R : Type.
@@ -803,6 +844,36 @@ Section AsyncProofs.
     rewrite <- written_app, Ho, written_app, written_renders. f_equal.
     unfold C16_Model.fin_part. destruct (pc_final (pc (be s))); [|reflexivity].
     rewrite written_app, written_bufs. cbn. apply app_nil_r.
+  Qed.
+
+  Lemma kept_subseq batch : subseq (flat (kept_ofP batch)) (flat batch).
+  Proof.
+    rewrite <- (kept_dropped batch) at 2. rewrite flat_app. apply subseq_app_l.
+  Qed.
+
+  Lemma kept_all_subseq bs : subseq (flat (flat_map kept_ofP bs)) (flat (concat bs)).
+  Proof.
+    induction bs as [|b bs IH]; [apply subseq_nil|]. cbn [flat_map concat]. rewrite !flat_app.
+    apply subseq_app; [apply kept_subseq|exact IH].
+  Qed.
+
+  (* at most once, in order: what has been handed to the file so far is an order-preserving selection of
+     the records the back-end took, hence of the appended sequence; distinct records never appear twice *)
+  Theorem written_subseq progs0 s :
+    Forall (Forall small) progs0 -> reachP (init progs0) s ->
+    subseq (written_of (out (gh s))) (taken (gh s)) /\
+    subseq (written_of (out (gh s))) (hist (gh s)) /\
+    (NoDup (hist (gh s)) -> NoDup (written_of (out (gh s)))).
+  Proof.
+    intros Hs Hr.
+    destruct (async_exactly_once progs0 s Hs Hr) as [Hh [_ [_ [_ [Hw Hf]]]]].
+    assert (H1 : subseq (written_of (out (gh s))) (taken (gh s))).
+    { eapply subseq_trans; [apply (subseq_app_l _ (written_of (pending (pc (be s)))))|]. rewrite Hw.
+      unfold taken. rewrite flat_app. apply subseq_app; [apply kept_all_subseq|].
+      destruct (pc_final (pc (be s))); [apply subseq_refl|apply subseq_nil_l]. }
+    assert (H2 : subseq (written_of (out (gh s))) (hist (gh s))).
+    { eapply subseq_trans; [exact H1|]. rewrite Hh. apply subseq_app_l. }
+    split; [exact H1|]. split; [exact H2|]. intros Hn. eapply subseq_NoDup; eauto.
   Qed.
 
   Theorem drop_only_announced progs0 s :
